@@ -142,15 +142,7 @@ func (c *connection) write() {
 			}
 		case msg, ok := <-c.activeMsgCompleteChan: // 平台主动下发的完成情况
 			if ok {
-				seq := msg.ExtensionFields.PlatformSeq
-				if v, ok := record[seq]; ok {
-					msg.ExtensionFields.PlatformData = v.ExtensionFields.Data
-					msg.ExtensionFields.PlatformCommand = v.Command
-					msg.ExtensionFields.ActiveSend = true
-					c.onWriteExecutionEvent(msg)
-					v.replyChan <- msg
-					delete(record, seq)
-				}
+				c.onActiveCompleteEvent(record, msg)
 			}
 		case subPackMsg, ok := <-c.reissuePackChan: // 分包补传的
 			if ok {
@@ -250,7 +242,7 @@ func (c *connection) onActiveEvent(activeMsg *ActiveMessage, record map[uint16]*
 	}
 	if err != nil {
 		replyMsg.ExtensionFields.Err = errors.Join(ErrWriteDataFail, err)
-		c.activeMsgCompleteChan <- replyMsg
+		c.onActiveCompleteEvent(record, replyMsg)
 	} else if activeMsg.OverTimeDuration >= 0 {
 		duration := 3 * time.Second
 		if activeMsg.OverTimeDuration > 0 {
@@ -267,6 +259,20 @@ func (c *connection) onActiveEvent(activeMsg *ActiveMessage, record map[uint16]*
 				fmt.Errorf("overtime is [%.2f]second", duration.Seconds()))
 			c.activeMsgCompleteChan <- overtimeMsg
 		}(replyMsg)
+	}
+}
+
+// onActiveCompleteEvent 主动下发的结束情况(终端应答 超时 写入失败) 回复给调用方
+// 只在write协程中执行 write协程自己产生的结束情况直接调用 不再发给自己消费的activeMsgCompleteChan
+func (c *connection) onActiveCompleteEvent(record map[uint16]*ActiveMessage, msg *Message) {
+	seq := msg.ExtensionFields.PlatformSeq
+	if v, ok := record[seq]; ok {
+		msg.ExtensionFields.PlatformData = v.ExtensionFields.Data
+		msg.ExtensionFields.PlatformCommand = v.Command
+		msg.ExtensionFields.ActiveSend = true
+		c.onWriteExecutionEvent(msg)
+		v.replyChan <- msg
+		delete(record, seq)
 	}
 }
 
@@ -327,7 +333,7 @@ func (c *connection) onActiveRespondEvent(record map[uint16]*ActiveMessage, msg 
 		for k := range record {
 			if tmp.HasRespondFunc(k) {
 				msg.ExtensionFields.PlatformSeq = k
-				c.activeMsgCompleteChan <- msg
+				c.onActiveCompleteEvent(record, msg)
 				return true
 			}
 		}
